@@ -13,14 +13,25 @@ From Verif Require Import Base.F64 Base.Conc Model.ClassicHist Model.NativeHist 
 Import ListNotations.
 Open Scope Z_scope.
 
+Lemma srt_rdone h rk ph neg ks : SRT h -> SRT (r_done VC rk ph neg ks h).
+Proof. destruct ks, neg, ph, h; intros H; exact H. Qed.
+Lemma rstore_pos g (s : nsetL) fd : ns_pos VC (rstore_set VC [] g s fd) = ns_pos VC s. Proof. destruct fd, s; reflexivity. Qed.
+Lemma rstore_neg g (s : nsetL) fd : ns_neg VC (rstore_set VC [] g s fd) = ns_neg VC s. Proof. destruct fd, s; reflexivity. Qed.
 Lemma srt_step h pc h' nxt : lstep h pc = Some (h', nxt) -> SRT h -> SRT h'.
 Proof.
-  intros Hs (S1 & S2 & S3 & S4). destruct pc; stepin Hs;
+  intros Hs HS.
+  assert (RS : forall rk ph x fd, pc = rStore VC rk ph x fd -> SRT h').
+  { intros rk ph x fd ->. stepin Hs. inversion Hs; subst; clear Hs. destruct HS as (S1 & S2 & S3 & S4). destruct h, x; unfold SRT; hsimp;
+      rewrite ?rstore_pos, ?rstore_neg; repeat split; assumption. }
+  assert (RR : forall rk ph x neg, pc = rRange VC rk ph x neg -> SRT h').
+  { intros rk ph x neg ->. stepin Hs. inversion Hs; subst; clear Hs. apply srt_rdone. exact HS. }
+  destruct pc; try (eapply RS; reflexivity); try (eapply RR; reflexivity); clear RS RR.
+  all: destruct HS as (S1 & S2 & S3 & S4); stepin Hs;
     repeat match goal with
            | H : context [if ?c then _ else _] |- _ => destruct c
            | H : context [match ?x with _ => _ end] |- _ =>
-               lazymatch type of x with list _ => destruct x | option _ => destruct x | mctx => destruct x | ephase => destruct x end
-           end; try discriminate; inversion Hs; subst; clear Hs; unfold SRT, upd_side;
+               lazymatch type of x with list _ => destruct x | option _ => destruct x | mctx => destruct x | ephase => destruct x | rctx => destruct x | rphase => destruct x end
+           end; try discriminate; inversion Hs; subst; clear Hs; try (apply srt_rdone); unfold SRT, upd_side;
     repeat match goal with h0 : nshL |- _ => destruct h0 end; hsimp;
     try (repeat split; assumption);
     repeat match goal with b : bool |- _ => destruct b end; hsimp; repeat split; auto using srt_ins, srt_upd, srt_del.
@@ -78,14 +89,18 @@ Record Inv (c : Conc.config LM) : Prop := mkInv {
 }.
 
 Lemma lstart_inl : forall o : Conc.op LM, exists l, start LM o = inl l.
-Proof. intros [v|]; eexists; reflexivity. Qed.
-Lemma fresh_pc time (t : thread LM) o pc inv : fresh time t -> t_cur t = Some (o, pc, inv) ->
-  (exists v, pc = oTicket VC v) \/ pc = wLock VC.
-Proof. unfold fresh. intros H E. rewrite E in H. destruct H as [_ H]. destruct o; cbn in H; inversion H; eauto. Qed.
+Proof. intros [v| | |d]; eexists; reflexivity. Qed.
+Definition spc (pc : npcL) : bool := match pc with oTicket _ _ | wLock _ | fCheck _ | cAdv _ _ => true | _ => false end.
+Lemma fresh_pc time (t : thread LM) o pc inv : fresh time t -> t_cur t = Some (o, pc, inv) -> spc pc = true.
+Proof. unfold fresh. intros H E. rewrite E in H. destruct H as [_ H]. destruct o; cbn in H; inversion H; reflexivity. Qed.
+Lemma spc_holds pc : spc pc = true -> holds pc = false. Proof. destruct pc; intros E; try discriminate E; reflexivity. Qed.
+Lemma spc_obs_ok h pc : spc pc = true -> obs_ok h pc. Proof. destruct pc; intros E; try discriminate E; exact I. Qed.
+Lemma spc_quiet pc : spc pc = true -> quietx (Some pc).
+Proof. destruct pc; intros E; try discriminate E; repeat split; intros; reflexivity. Qed.
 Lemma fresh_quiet time (t : thread LM) : fresh time t -> quietx (tpc t).
 Proof.
   intros H. unfold tpc. destruct (t_cur t) as [[[o pc] inv]|] eqn:E; [|repeat split; reflexivity].
-  destruct (fresh_pc time t o pc inv H E) as [[v ->]| ->]; repeat split; intros; reflexivity.
+  apply spc_quiet. apply (fresh_pc time t o pc inv H E).
 Qed.
 Lemma holds_fcnt pc X : holds pc = true -> fcnt X (Some pc) = 0 /\ sbl X (Some pc) = [].
 Proof. destruct pc; intros H; try discriminate H; split; reflexivity. Qed.
@@ -112,8 +127,14 @@ End Ext.
 Lemma phi0_mtx h m f sb : Phi0 h f sb -> Phi0 (set_mtx VC h m) f sb.
 Proof. destruct h. intros H. exact H. Qed.
 
-Lemma npc_lock_dec (pc : npcL) : {pc = lLock VC} + {pc = wLock VC} + {pc <> lLock VC /\ pc <> wLock VC}.
-Proof. destruct pc; try (right; split; discriminate); [left; left; reflexivity|left; right; reflexivity]. Qed.
+Lemma lock_step h pc h' nxt : is_lock pc = true -> lstep h pc = Some (h', nxt) ->
+  nh_mtx VC h = false /\ h' = set_mtx VC h true /\
+  exists p, nxt = inl p /\ holds p = true /\ (forall f sb, Phi0 h' f sb -> Phi h' f sb p) /\
+            (forall X, fcnt X (Some pc) = 0 /\ sbl X (Some pc) = []) /\ hcnt (Some pc) = 0.
+Proof.
+  intros Hl Hs. destruct pc; try discriminate Hl; stepin Hs; destruct (nh_mtx VC h); try discriminate Hs; inversion Hs; subst;
+    (split; [reflexivity|split; [reflexivity|eexists; split; [reflexivity|split; [reflexivity|split; [intros f sb P; exact P|split; [intros X; split; reflexivity|reflexivity]]]]]]).
+Qed.
 
 Lemma tpc_cur (t : thread LM) (o : nop) (pc : npcL) (inv : Z) : t_cur t = Some (o, pc, inv) -> tpc t = Some pc.
 Proof. unfold tpc. intros ->. reflexivity. Qed.
@@ -145,7 +166,7 @@ Proof.
   (* the thread after the step *)
   assert (TN : exists tn, thr c' = set_nth (thr c) (Z.to_nat tid) tn /\ nxt_rel nxt (tpc tn) /\
             (forall o' pc' inv', t_cur tn = Some (o', pc', inv') ->
-               match nxt with inl p => pc' = p | inr _ => (exists v, pc' = oTicket VC v) \/ pc' = wLock VC end) /\
+               match nxt with inl p => pc' = p | inr _ => spc pc' = true end) /\
             (forall k, In k (Conc.hist c') -> In k (Conc.hist c) \/ match nxt with inl _ => False | inr r => c_ret k = r end)).
   { destruct nxt as [p|r].
     - destruct Hn as [Eh Et]. eexists. split; [exact Et|]. split; [reflexivity|]. split.
@@ -186,52 +207,38 @@ Proof.
     + intros j tj oj pcj invj Hj Hcj Hhj. destruct (nth_error_set_nth_inv _ _ _ _ _ Hj) as [[-> ->]|[Nj Hj']].
       * specialize (TNpc _ _ _ Hcj). destruct nxt as [p|r].
         -- subst pcj. destruct PO as (Pp & _). apply (phi_ext h' _ _ _ _ EF ESB p Hhj Pp).
-        -- destruct TNpc as [[v ->]| ->]; discriminate Hhj.
+        -- rewrite (spc_holds _ TNpc) in Hhj; discriminate Hhj.
       * exfalso. assert (2 <= NH T); [|lia].
         apply (NH_two T i j t tj Hi Hj'); [congruence|exact Hhc|]. rewrite (tpc_cur _ _ _ _ Hcj). cbn [hcnt]. rewrite Hhj. reflexivity.
     + intros j tj oj pcj invj Hj Hcj. destruct (nth_error_set_nth_inv _ _ _ _ _ Hj) as [[-> ->]|[Nj Hj']].
       * specialize (TNpc _ _ _ Hcj). destruct nxt as [p|r].
         -- subst pcj. destruct PO as (_ & Hp & _). apply holds_obs_ok. exact Hp.
-        -- destruct TNpc as [[v ->]| ->]; exact I.
+        -- apply spc_obs_ok; exact TNpc.
       * apply (obs_ok_stab h h' pcj (IO j tj oj pcj invj Hj' Hcj)). intros b Eb. apply STB.
         pose proof (F_ge b T j tj Hj') as G. rewrite (tpc_cur _ _ _ _ Hcj) in G. cbn [fcnt] in G. rewrite Eb, Bool.eqb_reflx in G. lia.
     + intros k Hk. destruct (HH k Hk) as [Hk'|Hk']; [apply IG; exact Hk'|]. destruct nxt as [p|r]; [contradiction|].
       rewrite Hk'. apply PO.
-  - destruct (npc_lock_dec pc) as [[-> | ->]|[N1 N2]].
-    + (* lLock *) stepin Hstep. destruct (nh_mtx VC h) eqn:Mt; [discriminate|]. injection Hstep as E1 E2. subst nxt h'.
-      cbn [nxt_rel] in NR. assert (NH0 : NH T = 0) by (rewrite IN; reflexivity).
-      assert (EF : forall X, F X (set_nth T i tn) = F X T) by (intros X; rewrite (F_set X T i t tn Hi), Ht, NR; cbn [fcnt inflight]; lia).
-      assert (ESB : forall X, SB X (set_nth T i tn) = SB X T) by (intros X; apply (SB_same X T i t tn Hi); rewrite Ht, NR; reflexivity).
+  - destruct (is_lock pc) eqn:Hl.
+    + (* Mutex.Lock *) destruct (lock_step h pc h' nxt Hl Hstep) as (Mt & -> & p & -> & Hp & PP & QQ & HC0).
+      cbn [nxt_rel] in NR. assert (NH0 : NH T = 0) by (rewrite IN, Mt; reflexivity).
+      assert (EF : forall X, F X (set_nth T i tn) = F X T).
+      { intros X. rewrite (F_set X T i t tn Hi), Ht, NR. destruct (QQ X) as [A _]. destruct (holds_fcnt p X Hp) as [B _]. rewrite A, B. lia. }
+      assert (ESB : forall X, SB X (set_nth T i tn) = SB X T).
+      { intros X. apply (SB_same X T i t tn Hi). rewrite Ht, NR. destruct (QQ X) as [_ A]. destruct (holds_fcnt p X Hp) as [_ B]. congruence. }
       constructor; rewrite ?Esh, ?ET.
       * exact SRT'.
-      * rewrite (NH_set T i t tn Hi), Ht, NR, NH0. destruct h; reflexivity.
+      * rewrite (NH_set T i t tn Hi), Ht, NR, NH0, HC0. cbn [hcnt]. rewrite Hp. destruct h; reflexivity.
       * destruct h; discriminate.
       * intros j tj oj pcj invj Hj Hcj Hhj. destruct (nth_error_set_nth_inv _ _ _ _ _ Hj) as [[-> ->]|[Nj Hj']].
-        -- pose proof (TNpc _ _ _ Hcj). subst pcj. cbn [Phi]. apply (phi0_ext _ _ _ _ _ EF ESB). apply phi0_mtx. apply IF. reflexivity.
+        -- pose proof (TNpc _ _ _ Hcj). subst pcj. apply PP. apply (phi0_ext _ _ _ _ _ EF ESB). apply phi0_mtx. apply IF. exact Mt.
         -- exfalso. pose proof (zsum_ge_nth (fun t => hcnt (tpc t)) T (fun t => proj1 (hcnt_range (tpc t))) j tj Hj') as G. cbv beta in G.
            fold tsum in G. fold (NH T) in G. rewrite (tpc_cur _ _ _ _ Hcj) in G. cbn [hcnt] in G. rewrite Hhj in G. lia.
       * intros j tj oj pcj invj Hj Hcj. destruct (nth_error_set_nth_inv _ _ _ _ _ Hj) as [[-> ->]|[Nj Hj']].
-        -- pose proof (TNpc _ _ _ Hcj). subst pcj. exact I.
-        -- apply (obs_ok_stab h _ pcj (IO j tj oj pcj invj Hj' Hcj)). intros b _. destruct h, b; apply stab_refl.
-      * intros k Hk. destruct (HH k Hk) as [Hk'|[]]. apply IG. exact Hk'.
-    + (* wLock *) stepin Hstep. destruct (nh_mtx VC h) eqn:Mt; [discriminate|]. injection Hstep as E1 E2. subst nxt h'.
-      cbn [nxt_rel] in NR. assert (NH0 : NH T = 0) by (rewrite IN; reflexivity).
-      assert (EF : forall X, F X (set_nth T i tn) = F X T) by (intros X; rewrite (F_set X T i t tn Hi), Ht, NR; cbn [fcnt inflight]; lia).
-      assert (ESB : forall X, SB X (set_nth T i tn) = SB X T) by (intros X; apply (SB_same X T i t tn Hi); rewrite Ht, NR; reflexivity).
-      constructor; rewrite ?Esh, ?ET.
-      * exact SRT'.
-      * rewrite (NH_set T i t tn Hi), Ht, NR, NH0. destruct h; reflexivity.
-      * destruct h; discriminate.
-      * intros j tj oj pcj invj Hj Hcj Hhj. destruct (nth_error_set_nth_inv _ _ _ _ _ Hj) as [[-> ->]|[Nj Hj']].
-        -- pose proof (TNpc _ _ _ Hcj). subst pcj. cbn [Phi]. apply (phi0_ext _ _ _ _ _ EF ESB). apply phi0_mtx. apply IF. reflexivity.
-        -- exfalso. pose proof (zsum_ge_nth (fun t => hcnt (tpc t)) T (fun t => proj1 (hcnt_range (tpc t))) j tj Hj') as G. cbv beta in G.
-           fold tsum in G. fold (NH T) in G. rewrite (tpc_cur _ _ _ _ Hcj) in G. cbn [hcnt] in G. rewrite Hhj in G. lia.
-      * intros j tj oj pcj invj Hj Hcj. destruct (nth_error_set_nth_inv _ _ _ _ _ Hj) as [[-> ->]|[Nj Hj']].
-        -- pose proof (TNpc _ _ _ Hcj). subst pcj. exact I.
+        -- pose proof (TNpc _ _ _ Hcj). subst pcj. apply holds_obs_ok. exact Hp.
         -- apply (obs_ok_stab h _ pcj (IO j tj oj pcj invj Hj' Hcj)). intros b _. destruct h, b; apply stab_refl.
       * intros k Hk. destruct (HH k Hk) as [Hk'|[]]. apply IG. exact Hk'.
     + (* ---- an observer steps ---- *)
-      pose proof (obs_local h pc h' nxt (tpc tn) Hh N1 N2 (IO i t o pc inv Hi Hc) Hstep NR) as OL.
+      pose proof (obs_local h pc h' nxt (tpc tn) Hh Hl (IO i t o pc inv Hi Hc) Hstep NR) as OL.
       destruct (build_OE h h' T i t tn pc nxt Hi Ht OL) as (b & A & B & dF & dtk & OE).
       destruct OL as (b0 & A0 & B0 & dF0 & dtk0 & L1 & L2 & L3 & L4 & L5 & L6 & L7 & L8 & L9 & L10 & L11 & L12 & L13 & L14 & L15 & L16 & L17).
       constructor; rewrite ?Esh, ?ET.
@@ -242,7 +249,7 @@ Proof.
         -- exfalso. rewrite (tpc_cur _ _ _ _ Hcj) in L16. cbn [hcnt] in L16. rewrite Hhj in L16. discriminate.
         -- apply (phi_obs _ _ _ _ _ _ _ _ _ _ _ OE pcj Hhj). apply (IH j tj oj pcj invj Hj' Hcj Hhj).
       * intros j tj oj pcj invj Hj Hcj. destruct (nth_error_set_nth_inv _ _ _ _ _ Hj) as [[-> ->]|[Nj Hj']].
-        -- specialize (TNpc _ _ _ Hcj). destruct nxt as [p|r]; [subst pcj; exact L17|]. destruct TNpc as [[v ->]| ->]; exact I.
+        -- specialize (TNpc _ _ _ Hcj). destruct nxt as [p|r]; [subst pcj; exact L17|]. apply spc_obs_ok; exact TNpc.
         -- apply (obs_ok_stab h h' pcj (IO j tj oj pcj invj Hj' Hcj)). intros b1 _.
            destruct (Bool.eqb_spec b1 b0) as [->|Nb]; [exact L15|].
            assert (b1 = negb b0) by (destruct b1, b0; cbn; congruence). subst b1. rewrite L5. apply stab_refl.
@@ -276,9 +283,9 @@ Proof.
   - rewrite N0. reflexivity.
   - intros _. apply phi0_init; assumption.
   - intros i t o pc inv Hi Hc Hh. exfalso. rewrite Forall_forall in HF. specialize (HF t (nth_error_In _ _ Hi)).
-    destruct (fresh_pc 0 t o pc inv HF Hc) as [[v ->]| ->]; discriminate.
+    rewrite (spc_holds _ (fresh_pc 0 t o pc inv HF Hc)) in Hh; discriminate.
   - intros i t o pc inv Hi Hc. rewrite Forall_forall in HF. specialize (HF t (nth_error_In _ _ Hi)).
-    destruct (fresh_pc 0 t o pc inv HF Hc) as [[v ->]| ->]; exact I.
+    apply spc_obs_ok; apply (fresh_pc 0 t o pc inv HF Hc).
   - rewrite HH. intros k [].
 Qed.
 
@@ -286,15 +293,16 @@ Lemma Inv_reachable g progs sched : Inv (run_sched LM (init_config LM (linit g) 
 Proof. apply (run_sched_ind LM Inv); [intros c tid c' Hc Hs; exact (Inv_step c tid c' Hc Hs)|apply Inv_init]. Qed.
 
 (* ---- no deadlock ---- *)
-Lemma lstep_blocked h pc : lstep h pc = None -> (pc = lLock VC \/ pc = wLock VC) /\ nh_mtx VC h = true.
+Lemma lstep_blocked h pc : lstep h pc = None -> is_lock pc = true /\ nh_mtx VC h = true.
 Proof.
   intros Hs. destruct pc; stepin Hs;
     repeat match goal with
            | H : context [if ?c then _ else _] |- _ => let E := fresh "E" in destruct c eqn:E
            | H : context [match ?x with _ => _ end] |- _ =>
-               lazymatch type of x with list _ => destruct x | option _ => destruct x | mctx => destruct x | ephase => destruct x end
+               lazymatch type of x with list _ => destruct x | option _ => destruct x | mctx => destruct x | ephase => destruct x | rctx => destruct x | rphase => destruct x end
            end; try discriminate; auto.
 Qed.
+Lemma lock_holds pc : is_lock pc = true -> holds pc = false. Proof. destruct pc; intros E; try discriminate E; reflexivity. Qed.
 Lemma sched_enabled (c : Conc.config LM) i t o pc inv : nth_error (thr c) i = Some t -> t_cur t = Some (o, pc, inv) ->
   lstep (sh c) pc <> None -> sched_step LM c (Z.of_nat i) <> None.
 Proof.
@@ -326,7 +334,7 @@ Proof.
   - destruct (lstep_blocked _ _ Es) as [_ Hm]. pose proof (i_nh c I) as N. rewrite Hm in N.
     destruct (NH_pos_ex (thr c)) as (j & tj & Hj & Hh); [lia|].
     unfold tpc in Hh. destruct (t_cur tj) as [[[oj pcj] invj]|] eqn:Ecj; [|discriminate]. cbn [hcnt] in Hh.
-    exists (Z.of_nat j). eapply sched_enabled; eauto. intros En. destruct (lstep_blocked _ _ En) as [[-> | ->] _]; discriminate.
+    exists (Z.of_nat j). eapply sched_enabled; eauto. intros En. destruct (lstep_blocked _ _ En) as [L9 _]. rewrite (lock_holds _ L9) in Hh. discriminate Hh.
 Qed.
 
 (* the cool-down spin exits as soon as no observer is left in flight on the cold set *)
@@ -335,6 +343,15 @@ Lemma spin_exits_L g progs sched : let c := run_sched LM (init_config LM (linit 
   F cold (thr c) = 0 -> zl (cntv (gs (sh c) cold)) = count.
 Proof.
   intros c i t o k cold count inv Hi Hc HF. pose proof (Inv_reachable g progs sched) as I. fold c in I.
+  pose proof (i_hold c I i t o _ inv Hi Hc eq_refl) as P. cbn [Phi] in P. destruct P as (_ & _ & _ & E & _). lia.
+Qed.
+
+(* ... and so does the cool-down spin of a reset (after the swap, on the formerly hot set) *)
+Lemma rspin_exits_L g progs sched : let c := run_sched LM (init_config LM (linit g) progs) sched in
+  forall i t o rk cold count inv, nth_error (thr c) i = Some t -> t_cur t = Some (o, rCool VC rk cold count, inv) ->
+  F cold (thr c) = 0 -> zl (cntv (gs (sh c) cold)) = count.
+Proof.
+  intros c i t o rk cold count inv Hi Hc HF. pose proof (Inv_reachable g progs sched) as I. fold c in I.
   pose proof (i_hold c I i t o _ inv Hi Hc eq_refl) as P. cbn [Phi] in P. destruct P as (_ & _ & _ & E & _). lia.
 Qed.
 
@@ -367,13 +384,41 @@ Proof.
 Qed.
 
 (* ====================================================================== *)
+(* 8b. no reset configured (MinResetDuration = 0): the reset code is never entered *)
+(* ====================================================================== *)
+Definition is_rpc (pc : npcL) : bool := match pc with rLock _ => true | _ => is_reset pc end.
+Lemma rpc_e ph c neg ks : is_rpc (e_next VC ph c neg ks) = false. Proof. destruct ks, neg, ph; reflexivity. Qed.
+Lemma rpc_m k c neg r ks : is_rpc (m_next VC k c neg r ks) = false. Proof. destruct ks, neg, k; reflexivity. Qed.
+Lemma rpc_ma k c neg r kk ks : is_rpc (m_added VC k c neg r kk ks) = false. Proof. destruct k; cbn [m_added]; try reflexivity; apply rpc_m. Qed.
+Lemma rpc_w c neg o ks : is_rpc (w_next VC c neg o ks) = false. Proof. destruct ks, neg; reflexivity. Qed.
+Lemma rpc_ac k c count : is_rpc (after_cool VC k c count) = false. Proof. destruct k; reflexivity. Qed.
+Lemma rpc_aa k c r : is_rpc (after_addreset VC k c r) = false. Proof. destruct k; reflexivity. Qed.
+Definition nor_sh (h : nshL) : Prop := g_min_reset (nh_cfg VC h) = 0 /\ rs_pend (nh_rs VC h) = 0.
+Lemma nor_step h pc h' nxt : lstep h pc = Some (h', nxt) -> nor_sh h -> is_rpc pc = false ->
+  nor_sh h' /\ match nxt with inl p => is_rpc p = false | inr _ => True end.
+Proof.
+  intros Hs [G0 P0] Hr. destruct pc; try discriminate Hr; stepin Hs; try rewrite G0 in Hs; try rewrite P0 in Hs; cbn [Z.eqb Z.ltb Z.compare orb andb] in Hs;
+    repeat match goal with
+           | H : context [if ?c then _ else _] |- _ => destruct c
+           | H : context [match ?x with _ => _ end] |- _ =>
+               lazymatch type of x with list _ => destruct x | option _ => destruct x | mctx => destruct x | ephase => destruct x end
+           end; try discriminate; inversion Hs; subst; clear Hs; unfold nor_sh, upd_side;
+    rewrite ?rpc_e, ?rpc_m, ?rpc_ma, ?rpc_w, ?rpc_ac, ?rpc_aa;
+    (split; [|try exact I; try reflexivity; repeat match goal with |- context [if ?b then _ else _] => destruct b | |- context [match ?x with _ => _ end] => destruct x end; reflexivity]);
+    repeat match goal with h0 : nshL |- _ => destruct h0 end; hsimp;
+    repeat match goal with b : bool |- _ => destruct b end; hsimp; try (split; assumption); try (split; [assumption|reflexivity]).
+Qed.
+Definition NoR (c : Conc.config LM) : Prop :=
+  nor_sh (sh c) /\ forall t o pc inv, In t (thr c) -> t_cur t = Some (o, pc, inv) -> is_rpc pc = false.
+
+(* ====================================================================== *)
 (* 9. every Observe call takes exactly one ticket                          *)
 (* ====================================================================== *)
-Definition start_pc (o : nop) : npcL := match o with NObserve v => oTicket VC v | NWrite => wLock VC end.
+Definition start_pc (o : nop) : npcL := match o with NObserve v => oTicket VC v | NWrite => wLock VC | NFire => fCheck VC | NAdvance d => cAdv VC d end.
 Definition next_thread (todo : list nop) (idx time : Z) : thread LM :=
   match todo with [] => mkThread LM [] None idx | o :: rest => mkThread LM rest (Some (o, start_pc o, time)) idx end.
 Lemma advance_L tid todo idx time : advance LM tid todo idx time = (next_thread todo idx time, []).
-Proof. destruct todo as [|[v|] rest]; reflexivity. Qed.
+Proof. destruct todo as [|[v| | |d] rest]; reflexivity. Qed.
 Lemma sched_step_L c tid c' : sched_step LM c tid = Some c' ->
   exists t o pc inv h' nxt, nth_error (thr c) (Z.to_nat tid) = Some t /\ t_cur t = Some (o, pc, inv) /\
     lstep (sh c) pc = Some (h', nxt) /\ sh c' = h' /\
@@ -391,7 +436,28 @@ Proof.
   - rewrite advance_L in H. injection H as <-. cbn. repeat split; auto.
 Qed.
 
-Definition is_obs_op (o : nop) : bool := match o with NObserve _ => true | NWrite => false end.
+Lemma rpc_start o : is_rpc (start_pc o) = false. Proof. destruct o; reflexivity. Qed.
+Lemma NoR_step c tid c' : NoR c -> sched_step LM c tid = Some c' -> NoR c'.
+Proof.
+  intros [NS NT] St. destruct (sched_step_L c tid c' St) as (t & o & pc & inv & h' & nxt & Hi & Hc & Hs & Esh & Et).
+  destruct (nor_step _ _ _ _ Hs NS (NT t o pc inv (nth_error_In _ _ Hi) Hc)) as [NS' NN]. split; [rewrite Esh; exact NS'|].
+  rewrite Et. intros t' o' pc' inv' Hin Hc'. apply In_nth_error in Hin. destruct Hin as [j Hj].
+  destruct (nth_error_set_nth_inv _ _ _ _ _ Hj) as [[Ej Et']|[Nj Hj']].
+  - subst t'. destruct nxt as [l'|r]; [cbn [t_cur] in Hc'; inversion Hc'; subst; exact NN|].
+    destruct (t_todo t) as [|o9 rest]; [discriminate Hc'|]. cbn [next_thread t_cur] in Hc'. inversion Hc'. apply rpc_start.
+  - apply (NT t' o' pc' inv' (nth_error_In _ _ Hj') Hc').
+Qed.
+Lemma NoR_init g progs : g_min_reset g = 0 -> NoR (init_config LM (linit g) progs).
+Proof.
+  intros G0. split; [split; [exact G0|reflexivity]|]. unfold init_config. cbn [thr].
+  generalize (map Z.of_nat (seq 0 (length progs))). intros ids. revert progs. induction ids as [|id ids IH]; intros [|p ps]; cbn [combine map]; try solve [intros t o pc inv []].
+  intros t o pc inv [<-|Hin] Hc; [|apply (IH ps t o pc inv Hin Hc)]. rewrite advance_L in Hc. cbn [fst] in Hc.
+  destruct p as [|o9 rest]; [discriminate Hc|]. cbn [next_thread t_cur] in Hc. inversion Hc. apply rpc_start.
+Qed.
+Lemma NoR_reachable g progs sched : g_min_reset g = 0 -> NoR (run_sched LM (init_config LM (linit g) progs) sched).
+Proof. intros G0. apply (run_sched_ind LM NoR); [intros c tid c' Hc Hs; exact (NoR_step c tid c' Hc Hs)|apply NoR_init; exact G0]. Qed.
+
+Definition is_obs_op (o : nop) : bool := match o with NObserve _ => true | _ => false end.
 Definition nobs (l : list nop) : Z := Z.of_nat (length (filter is_obs_op l)).
 Definition is_tk (pc : npcL) : bool := match pc with oTicket _ _ => true | _ => false end.
 Definition pend (t : thread LM) : Z :=
@@ -405,31 +471,44 @@ Lemma is_tk_ma k c neg r kk ks : is_tk (m_added VC k c neg r kk ks) = false. Pro
 Lemma is_tk_w c neg o ks : is_tk (w_next VC c neg o ks) = false. Proof. destruct ks, neg; reflexivity. Qed.
 Lemma is_tk_ac k c count : is_tk (after_cool VC k c count) = false. Proof. destruct k; reflexivity. Qed.
 Lemma is_tk_aa k c r : is_tk (after_addreset VC k c r) = false. Proof. destruct k; reflexivity. Qed.
-Lemma tk_step h pc h' nxt : lstep h pc = Some (h', nxt) ->
-  nh_tk VC h' = nh_tk VC h + (if is_tk pc then 1 else 0) /\
+Lemma is_tk_r rk ph x neg ks : is_tk (r_next VC rk ph x neg ks) = false. Proof. destruct ks, neg, ph, rk; reflexivity. Qed.
+Lemma r_done_tk h rk ph neg ks : nh_tk VC (r_done VC rk ph neg ks h) = nh_tk VC h. Proof. destruct ks, neg, ph, h; reflexivity. Qed.
+Definition tk_eff (pc : npcL) (n : Z) : Z :=
+  match pc with oTicket _ _ => n + 1 | rSwap _ (RL _) _ => 1 | rSwap _ RT _ => 0 | _ => n end.
+Lemma tk_step_gen h pc h' nxt : lstep h pc = Some (h', nxt) ->
+  nh_tk VC h' = tk_eff pc (nh_tk VC h) /\
   match nxt with inl pc' => is_tk pc' = false | inr _ => is_tk pc = false end.
 Proof.
-  intros Hs. destruct pc; stepin Hs;
+  intros Hs.
+  assert (RR : forall rk ph x neg, pc = rRange VC rk ph x neg -> nh_tk VC h' = nh_tk VC h /\ match nxt with inl pc' => is_tk pc' = false | inr _ => False end).
+  { intros rk ph x neg ->. stepin Hs. inversion Hs; subst; clear Hs. rewrite is_tk_r. split; [|reflexivity]. destruct (cm_keys _ _), neg, ph, h; reflexivity. }
+  destruct pc; try (destruct (RR _ _ _ _ eq_refl) as [A B]; split; [exact A|destruct nxt; [exact B|destruct B]]); clear RR; stepin Hs;
     repeat match goal with
            | H : context [if ?c then _ else _] |- _ => destruct c
            | H : context [match ?x with _ => _ end] |- _ =>
-               lazymatch type of x with list _ => destruct x | option _ => destruct x | mctx => destruct x | ephase => destruct x end
-           end; try discriminate; inversion Hs; subst; clear Hs; unfold upd_side;
-    rewrite ?is_tk_e, ?is_tk_m, ?is_tk_ma, ?is_tk_w, ?is_tk_ac, ?is_tk_aa;
-    (split; [|try reflexivity; repeat match goal with |- context [if ?b then _ else _] => destruct b | |- context [match ?x with _ => _ end] => destruct x end; reflexivity]);
+               lazymatch type of x with list _ => destruct x | option _ => destruct x | mctx => destruct x | ephase => destruct x | rctx => destruct x | rphase => destruct x end
+           end; try discriminate; inversion Hs; subst; clear Hs; unfold upd_side, tk_eff;
+    rewrite ?r_done_tk, ?is_tk_e, ?is_tk_m, ?is_tk_ma, ?is_tk_w, ?is_tk_ac, ?is_tk_aa, ?is_tk_r;
+    (split; [|try reflexivity; unfold r_after; repeat match goal with |- context [if ?b then _ else _] => destruct b | |- context [match ?x with _ => _ end] => destruct x end; reflexivity]);
     repeat match goal with h0 : nshL |- _ => destruct h0 end; hsimp; cbn [is_tk];
     repeat match goal with b : bool |- _ => destruct b end; hsimp; try reflexivity; try lia.
+Qed.
+Lemma tk_step h pc h' nxt : lstep h pc = Some (h', nxt) -> is_rpc pc = false ->
+  nh_tk VC h' = nh_tk VC h + (if is_tk pc then 1 else 0) /\
+  match nxt with inl pc' => is_tk pc' = false | inr _ => is_tk pc = false end.
+Proof.
+  intros Hs Hr. destruct (tk_step_gen _ _ _ _ Hs) as [A B]. split; [|exact B]. rewrite A. destruct pc; try discriminate Hr; cbn [tk_eff is_tk]; lia.
 Qed.
 
 Lemma nobs_cons o l : nobs (o :: l) = (if is_obs_op o then 1 else 0) + nobs l.
 Proof. unfold nobs. cbn [filter]. destruct (is_obs_op o); cbn [length]; lia. Qed.
 Lemma pend_next todo idx time : pend (next_thread todo idx time) = nobs todo.
-Proof. destruct todo as [|[v|] rest]; unfold pend, next_thread; cbn [t_todo t_cur]; cbn [start_pc is_tk]; rewrite ?nobs_cons; cbn [is_obs_op]; [apply Z.add_0_r|apply Z.add_comm|apply Z.add_comm]. Qed.
+Proof. destruct todo as [|[v| | |d] rest]; unfold pend, next_thread; cbn [t_todo t_cur]; cbn [start_pc is_tk]; rewrite ?nobs_cons; cbn [is_obs_op]; [apply Z.add_0_r|apply Z.add_comm|apply Z.add_comm|apply Z.add_comm|apply Z.add_comm]. Qed.
 
-Lemma InvN_step N c tid c' : InvN N c -> sched_step LM c tid = Some c' -> InvN N c'.
+Lemma InvN_step N c tid c' : NoR c -> InvN N c -> sched_step LM c tid = Some c' -> InvN N c'.
 Proof.
-  intros [E Q] St. destruct (sched_step_L c tid c' St) as (t & o & pc & inv & h' & nxt & Hi & Hc & Hs & Esh & Et).
-  destruct (tk_step _ _ _ _ Hs) as [Etk Hn]. split.
+  intros [_ NT] [E Q] St. destruct (sched_step_L c tid c' St) as (t & o & pc & inv & h' & nxt & Hi & Hc & Hs & Esh & Et).
+  destruct (tk_step _ _ _ _ Hs (NT t o pc inv (nth_error_In _ _ Hi) Hc)) as [Etk Hn]. split.
   - rewrite Esh, Et. unfold tsum. rewrite (zsum_set_nth pend (thr c) _ t _ Hi). fold tsum. rewrite Etk.
     assert (P : pend t = nobs (t_todo t) + (if is_tk pc then 1 else 0)) by (unfold pend; rewrite Hc; reflexivity).
     destruct nxt as [l'|r].
@@ -484,8 +563,29 @@ Proof.
   rewrite (init_hom (list f64) Z [] (@app f64) (fun v => [v]) (fun l => Z.of_nat (length l)) 0 Z.add (fun _ => 1) (fun x => x) phiL). reflexivity.
 Qed.
 
-Lemma InvN_reachable g progs sched : InvN (nobs_progs progs) (run_sched LM (init_config LM (linit g) progs) sched).
-Proof. apply (run_sched_ind LM (InvN (nobs_progs progs))); [intros c tid c' Hc Hs; exact (InvN_step _ c tid c' Hc Hs)|apply InvN_init; reflexivity]. Qed.
+Lemma InvN_reachable g progs sched : g_min_reset g = 0 -> InvN (nobs_progs progs) (run_sched LM (init_config LM (linit g) progs) sched).
+Proof.
+  intros G0.
+  assert (H : NoR (run_sched LM (init_config LM (linit g) progs) sched) /\ InvN (nobs_progs progs) (run_sched LM (init_config LM (linit g) progs) sched)).
+  { apply (run_sched_ind LM (fun c => NoR c /\ InvN (nobs_progs progs) c)).
+    - intros c tid c' [Hn Hc] Hs. split; [exact (NoR_step c tid c' Hn Hs)|exact (InvN_step _ c tid c' Hn Hc Hs)].
+    - split; [apply NoR_init; exact G0|apply InvN_init; reflexivity]. }
+  apply H.
+Qed.
+(* a thread that has finished has nothing left to do (needs no hypothesis on the configuration) *)
+Definition InvQ (c : Conc.config LM) : Prop := forall t, In t (thr c) -> t_cur t = None -> t_todo t = [].
+Lemma InvQ_reachable g progs sched : InvQ (run_sched LM (init_config LM (linit g) progs) sched).
+Proof.
+  apply (run_sched_ind LM InvQ).
+  - intros c tid c' Q St. destruct (sched_step_L c tid c' St) as (t & o & pc & inv & h' & nxt & Hi & Hc & Hs & Esh & Et).
+    unfold InvQ. rewrite Et. intros t' Hin Hn'. apply In_nth_error in Hin. destruct Hin as [j Hj].
+    destruct (nth_error_set_nth_inv _ _ _ _ _ Hj) as [[-> ->]|[Nj Hj']].
+    + destruct nxt as [l'|r]; [discriminate Hn'|]. destruct (t_todo t) as [|o' rest]; [reflexivity|discriminate Hn'].
+    + apply Q; [apply (nth_error_In _ _ Hj')|exact Hn'].
+  - unfold InvQ, init_config. cbn [thr]. generalize (map Z.of_nat (seq 0 (length progs))). intros ids. revert progs.
+    induction ids as [|id ids IH]; intros [|p ps]; cbn [combine map]; try solve [intros t []].
+    intros t [<-|Hin] Hn; [|apply (IH ps t Hin Hn)]. rewrite advance_L in *. cbn [fst] in *. destruct p as [|o rest]; [reflexivity|discriminate Hn].
+Qed.
 
 (* populations *)
 Lemma zsum_zmapm (m : vmap) : NativeHist.zsum (map snd (zmapm m)) = zl (allc m).
@@ -602,14 +702,24 @@ Variables (g : config) (progs : list (list nop)) (sched : list Z).
 Let zc := run_sched ZM (init_config ZM (ninit Z 0 g) progs) sched.
 Let lc := run_sched LM (init_config LM (linit g) progs) sched.
 
-Lemma quiescent_Z : all_done ZM zc = true -> zquiet (sh zc) (nobs_progs progs).
+(* with or without resets: at quiescence everything is relative to the ticket counter, which the last completed swap reset *)
+Lemma quiescent_Z_gen : all_done ZM zc = true -> zquiet (sh zc) (nh_tk Z (sh zc)).
 Proof.
   intros Hd. assert (Ez : zc = zcfg lc) by apply zrun.
   assert (Hd' : all_done LM lc = true).
   { rewrite <- Hd, Ez. symmetry. apply (all_done_hom (list f64) Z [] (@app f64) (fun v => [v]) (fun l => Z.of_nat (length l)) 0 Z.add (fun _ => 1) (fun x => x) phiL). }
   pose proof (quiescent_L g progs sched Hd') as Q. cbv zeta in Q. fold lc in Q.
+  destruct Q as (Mt & Tk & P & C1 & C2 & C3 & C4 & SR). rewrite Ez.
+  exact (quiescent_img (sh lc) _ Mt eq_refl Tk P C1 C2 C3 C4 SR).
+Qed.
+Lemma quiescent_Z : g_min_reset g = 0 -> all_done ZM zc = true -> zquiet (sh zc) (nobs_progs progs).
+Proof.
+  intros G0 Hd. assert (Ez : zc = zcfg lc) by apply zrun.
+  assert (Hd' : all_done LM lc = true).
+  { rewrite <- Hd, Ez. symmetry. apply (all_done_hom (list f64) Z [] (@app f64) (fun v => [v]) (fun l => Z.of_nat (length l)) 0 Z.add (fun _ => 1) (fun x => x) phiL). }
+  pose proof (quiescent_L g progs sched Hd') as Q. cbv zeta in Q. fold lc in Q.
   destruct Q as (Mt & Tk & P & C1 & C2 & C3 & C4 & SR).
-  destruct (InvN_reachable g progs sched) as [EN QN]. fold lc in EN, QN.
+  destruct (InvN_reachable g progs sched G0) as [EN QN]. fold lc in EN, QN.
   assert (PN : tsum (map pend (thr lc)) = 0).
   { apply zsum_all_zero. intros t Ht. unfold pend. pose proof (all_done_cur lc Hd' t Ht) as Ec. unfold tpc in Ec.
     destruct (t_cur t) as [[[o pc] inv]|] eqn:E; [discriminate|]. rewrite (QN t Ht E). reflexivity. }
@@ -621,7 +731,7 @@ End ZThm2.
 (* ====================================================================== *)
 (* 11. the counted values are the observed values                           *)
 (* ====================================================================== *)
-Definition obs_vals (l : list nop) : list f64 := flat_map (fun o => match o with NObserve v => [v] | NWrite => [] end) l.
+Definition obs_vals (l : list nop) : list f64 := flat_map (fun o => match o with NObserve v => [v] | _ => [] end) l.
 Definition pvpc (pc : npcL) : list f64 :=
   match pc with
   | oTicket _ v | oSumLoad _ v _ | oSumCas _ v _ _ | oLoadSch _ v _ | oLoadZt _ v _ _ | oBkLoad _ v _ _ _ | oBkLos _ v _ _ _
@@ -640,7 +750,7 @@ Definition InvV (AV : list f64) (c : Conc.config LM) : Prop :=
 Lemma obs_vals_app a b : obs_vals (a ++ b) = obs_vals a ++ obs_vals b. Proof. apply flat_map_app. Qed.
 Lemma pv_next todo idx time : Permutation (pv (next_thread todo idx time)) (obs_vals todo).
 Proof.
-  destruct todo as [|[v|] rest]; unfold pv, next_thread, tpc; cbn [t_todo t_cur pvx pvpc start_pc obs_vals flat_map app]; rewrite ?app_nil_r; try reflexivity.
+  destruct todo as [|[v| | |d] rest]; unfold pv, next_thread, tpc; cbn [t_todo t_cur pvx pvpc start_pc obs_vals flat_map app]; rewrite ?app_nil_r; try reflexivity.
   symmetry. apply Permutation_cons_append.
 Qed.
 
@@ -669,9 +779,9 @@ Lemma p_ac k c count : pvpc (after_cool VC k c count) = []. Proof. destruct k; r
 Lemma d_ac h k c count : dupx h (Some (after_cool VC k c count)) = []. Proof. destruct k; reflexivity. Qed.
 Lemma p_aa k c r : pvpc (after_addreset VC k c r) = []. Proof. destruct k; reflexivity. Qed.
 Lemma d_aa h k c r : dupx h (Some (after_addreset VC k c r)) = []. Proof. destruct k; reflexivity. Qed.
-Lemma cnt_step h pc h' nxt : lstep h pc = Some (h', nxt) -> cnt_eff h pc h' nxt.
+Lemma cnt_step h pc h' nxt : lstep h pc = Some (h', nxt) -> is_rpc pc = false -> cnt_eff h pc h' nxt.
 Proof.
-  intros Hs. destruct pc; stepin Hs;
+  intros Hs Hr. destruct pc; try discriminate Hr; clear Hr; stepin Hs;
     repeat match goal with
            | H : context [if ?c then _ else _] |- _ => destruct c
            | H : context [match ?x with _ => _ end] |- _ =>
@@ -724,10 +834,10 @@ Proof.
   intros I Hi Hh h. pose proof (DUP_holder c i t I Hi Hh h t) as P. rewrite (set_nth_same _ _ _ Hi) in P. exact P.
 Qed.
 
-Lemma InvV_step AV c tid c' : Inv c -> InvV AV c -> sched_step LM c tid = Some c' -> InvV AV c'.
+Lemma InvV_step AV c tid c' : NoR c -> Inv c -> InvV AV c -> sched_step LM c tid = Some c' -> InvV AV c'.
 Proof.
-  intros I V St. destruct (sched_step_L c tid c' St) as (t & o & pc & inv & h' & nxt & Hi & Hc & Hs & Esh & Et).
-  pose proof (tpc_cur t o pc inv Hc) as Ht. pose proof (cnt_step _ _ _ _ Hs) as CE.
+  intros [_ NT] I V St. destruct (sched_step_L c tid c' St) as (t & o & pc & inv & h' & nxt & Hi & Hc & Hs & Esh & Et).
+  pose proof (tpc_cur t o pc inv Hc) as Ht. pose proof (cnt_step _ _ _ _ Hs (NT t o pc inv (nth_error_In _ _ Hi) Hc)) as CE.
   unfold InvV in *. rewrite Esh, Et.
   set (t' := match nxt with inl l' => mkThread LM (t_todo t) (Some (o, l', inv)) (t_idx t) | inr _ => next_thread (t_todo t) (t_idx t + 1) (now c + 1) end) in *.
   pose proof (PV_set (thr c) (Z.to_nat tid) t t' Hi) as PS. unfold pv at 1 in PS. rewrite Ht in PS. cbn [pvx] in PS.
@@ -736,7 +846,7 @@ Proof.
     - unfold pv, tpc. cbn [t_todo t_cur pvx]. rewrite Hl. reflexivity.
     - subst l. rewrite app_nil_r. apply pv_next. }
   assert (Dt' : forall hh, dupx hh (tpc t') = match nxt with inl p9 => dupx hh (Some p9) | inr _ => [] end).
-  { intros hh. unfold t'. destruct nxt as [p9|r9]; [reflexivity|]. destruct (t_todo t) as [|[v|] rest]; reflexivity. }
+  { intros hh. unfold t'. destruct nxt as [p9|r9]; [reflexivity|]. destruct (t_todo t) as [|[v| | |d] rest]; reflexivity. }
   pose proof (DUP_set h' (thr c) (Z.to_nat tid) t t' Hi) as DS. rewrite Ht, Dt' in DS.
   set (T := thr c) in *. set (h := sh c) in *. set (i := Z.to_nat tid) in *.
   destruct pc; cbn [cnt_eff] in CE;
@@ -797,7 +907,7 @@ Proof.
     - split; reflexivity.
     - destruct (IH ps) as [A B]; [cbn in L; lia|]. rewrite advance_L. cbn [fst snd]. unfold PV, DUP in *. cbn [map concat]. split.
       + rewrite A, obs_vals_app, pv_next. reflexivity.
-      + rewrite B. destruct p as [|[v|] rest]; reflexivity. }
+      + rewrite B. destruct p as [|[v| | |d] rest]; reflexivity. }
   destruct (G (map Z.of_nat (seq 0 (length progs))) progs) as [A B]; [rewrite map_length, seq_length; reflexivity|].
   change (cntv (gs (linit g) false)) with (@nil f64). change (cntv (gs (linit g) true)) with (@nil f64). cbn [app].
   match goal with |- context [PV ?X] => set (TT := X) in * end.
@@ -806,12 +916,13 @@ Proof.
   rewrite A', B', app_nil_r. reflexivity.
 Qed.
 
-Lemma InvV_reachable g progs sched : InvV (obs_vals (concat progs)) (run_sched LM (init_config LM (linit g) progs) sched).
+Lemma InvV_reachable g progs sched : g_min_reset g = 0 -> InvV (obs_vals (concat progs)) (run_sched LM (init_config LM (linit g) progs) sched).
 Proof.
-  assert (H : Inv (run_sched LM (init_config LM (linit g) progs) sched) /\ InvV (obs_vals (concat progs)) (run_sched LM (init_config LM (linit g) progs) sched)).
-  { apply (run_sched_ind LM (fun c => Inv c /\ InvV (obs_vals (concat progs)) c)).
-    - intros c tid c' [Hi Hv] Hs. split; [exact (Inv_step c tid c' Hi Hs)|exact (InvV_step _ c tid c' Hi Hv Hs)].
-    - split; [apply Inv_init|apply InvV_init]. }
+  intros G0.
+  assert (H : (NoR (run_sched LM (init_config LM (linit g) progs) sched) /\ Inv (run_sched LM (init_config LM (linit g) progs) sched)) /\ InvV (obs_vals (concat progs)) (run_sched LM (init_config LM (linit g) progs) sched)).
+  { apply (run_sched_ind LM (fun c => (NoR c /\ Inv c) /\ InvV (obs_vals (concat progs)) c)).
+    - intros c tid c' [[Hn Hi] Hv] Hs. split; [split; [exact (NoR_step c tid c' Hn Hs)|exact (Inv_step c tid c' Hi Hs)]|exact (InvV_step _ c tid c' Hn Hi Hv Hs)].
+    - split; [split; [apply NoR_init; exact G0|apply Inv_init]|apply InvV_init]. }
   apply H.
 Qed.
 
@@ -834,12 +945,12 @@ Let zc := run_sched ZM (init_config ZM (ninit Z 0 g) progs) sched.
 Let lc := run_sched LM (init_config LM (linit g) progs) sched.
 
 (* at quiescence the values counted in the hot set are exactly the observed values *)
-Lemma quiescent_values_L : all_done LM lc = true ->
+Lemma quiescent_values_L : g_min_reset g = 0 -> all_done LM lc = true ->
   Permutation (cntv (gs (sh lc) (nh_hot VC (sh lc)))) (obs_vals (concat progs)).
 Proof.
-  intros Hd. pose proof (InvV_reachable g progs sched) as V. fold lc in V. unfold InvV in V.
+  intros G0 Hd. pose proof (InvV_reachable g progs sched G0) as V. fold lc in V. unfold InvV in V.
   pose proof (quiescent_L g progs sched Hd) as Q. cbv zeta in Q. fold lc in Q. destruct Q as (_ & _ & _ & C1 & _).
-  destruct (InvN_reachable g progs sched) as [_ QN]. fold lc in QN.
+  pose proof (InvQ_reachable g progs sched) as QN. fold lc in QN.
   pose proof (all_done_cur lc Hd) as AC.
   assert (P0 : PV (thr lc) = []).
   { apply concat_all_nil. intros t Ht. unfold pv. rewrite (AC t Ht). cbn [pvx]. rewrite app_nil_r.
@@ -849,17 +960,54 @@ Proof.
   rewrite P0, D0, !app_nil_r in V. rewrite <- V. destruct (nh_hot VC (sh lc)); cbn [negb] in *; rewrite C1; rewrite ?app_nil_r; reflexivity.
 Qed.
 
-Lemma quiescent_values_Z : all_done ZM zc = true ->
+Lemma quiescent_values_Z : g_min_reset g = 0 -> all_done ZM zc = true ->
   let h := sh zc in let hot := nget Z h (nh_hot Z h) in
   let AV := obs_vals (concat progs) in
   ns_cnt Z hot = NativeHist.zlen AV /\
   ns_zb Z hot + NativeHist.zsum (map snd (ns_pos Z hot)) + NativeHist.zsum (map snd (ns_neg Z hot)) + nan_count AV = NativeHist.zlen AV.
 Proof.
-  intros Hd. assert (Ez : zc = zcfg lc) by apply zrun.
+  intros G0 Hd. assert (Ez : zc = zcfg lc) by apply zrun.
   assert (Hd' : all_done LM lc = true).
   { rewrite <- Hd, Ez. symmetry. apply (all_done_hom (list f64) Z [] (@app f64) (fun v => [v]) (fun l => Z.of_nat (length l)) 0 Z.add (fun _ => 1) (fun x => x) phiL). }
-  pose proof (quiescent_values_L Hd') as PV0.
+  pose proof (quiescent_values_L G0 Hd') as PV0.
   pose proof (quiescent_L g progs sched Hd') as Q. cbv zeta in Q. fold lc in Q. destruct Q as (_ & _ & P & _).
   rewrite Ez. exact (qv_img (sh lc) _ PV0 P).
 Qed.
 End ZThm3.
+
+(* ====================================================================== *)
+(* 12. with resets: the ticket counter counts the calls ticketed since the last reset swap *)
+(* ====================================================================== *)
+Notation ledgerL := (ledger VC [] (@app f64) (fun v => [v]) (fun l => Z.of_nat (length l))).
+Notation ledgerZ := (ledger Z 0 Z.add (fun _ => 1) (fun x => x)).
+Lemma ledger_tk : forall sched (c : Conc.config LM) L, nh_tk VC (sh c) = zl L ->
+  nh_tk VC (sh (run_sched LM c sched)) = zl (ledgerL c sched L).
+Proof.
+  induction sched as [|a r IH]; intros c L E; cbn [run_sched ledger]; [exact E|].
+  change (native_machine VC [] (@app f64) (fun v => [v]) (fun l => Z.of_nat (length l))) with LM.
+  destruct (sched_step LM c a) as [c'|] eqn:St; [|apply IH; exact E]. apply IH.
+  destruct (sched_step_L c a c' St) as (t & o & pc & inv & h' & nxt & Hi & Hc & Hs & Esh & Et).
+  unfold pc_of. change (native_machine VC [] (@app f64) (fun v => [v]) (fun l => Z.of_nat (length l))) with LM.
+  change (local LM) with npcL in *. rewrite Hi, Hc, Esh. destruct (tk_step_gen _ _ _ _ Hs) as [A _]. rewrite A, E.
+  destruct pc; cbn [tk_eff ledger_eff]; try reflexivity; [unfold zl; cbn [length]; lia|destruct rk; reflexivity].
+Qed.
+
+Section ZThm4.
+Variables (g : config) (progs : list (list nop)) (sched : list Z).
+Let zc := run_sched ZM (init_config ZM (ninit Z 0 g) progs) sched.
+Let lc := run_sched LM (init_config LM (linit g) progs) sched.
+Let Ldg := ledgerZ (init_config ZM (ninit Z 0 g) progs) sched [].
+
+Lemma ledger_ZL : Ldg = ledgerL (init_config LM (linit g) progs) sched [].
+Proof.
+  unfold Ldg. rewrite <- (ledger_hom (list f64) Z [] (@app f64) (fun v => [v]) (fun l => Z.of_nat (length l)) 0 Z.add (fun _ => 1) (fun x => x) phiL phi_z phi_a phi_o phi_l).
+  rewrite (init_hom (list f64) Z [] (@app f64) (fun v => [v]) (fun l => Z.of_nat (length l)) 0 Z.add (fun _ => 1) (fun x => x) phiL). reflexivity.
+Qed.
+Lemma tickets_since_reset_Z : nh_tk Z (sh zc) = NativeHist.zlen Ldg.
+Proof.
+  assert (Ez : zc = zcfg lc) by apply zrun. rewrite Ez, ledger_ZL. unfold zcfg, mcfg. cbn [sh msh nh_tk].
+  apply (ledger_tk sched (init_config LM (linit g) progs) []). reflexivity.
+Qed.
+Lemma quiescent_since_reset_Z : all_done ZM zc = true -> zquiet (sh zc) (NativeHist.zlen Ldg).
+Proof. intros Hd. rewrite <- tickets_since_reset_Z. apply (quiescent_Z_gen g progs sched Hd). Qed.
+End ZThm4.
